@@ -110,6 +110,11 @@ def __array_ufunc__(self, ufunc, method, *args, out=None, **kwargs):
                 result = result[0]
             if isinstance(result, type(self)):
                 result = result.view(np.ndarray)
+            if out is not None:
+                if result.shape != result_shape:
+                    raise ValueError(f"Output array has shape {result.shape}; it should be {result_shape}")
+                s, o = s.copy(), o.copy()  # `out` may be one of the operands
+                result[...] = 0.0
             _multiplication_helper(s, args[0].ell_min, args[0].ell_max, args[0].spin_weight,
                                    o, args[1].ell_min, args[1].ell_max, args[1].spin_weight,
                                    result, result_ell_min, result_ell_max, result_s)
